@@ -43,17 +43,17 @@ J2 = "optimism.material.J2Plastic"
 def run(ctx):
     ctx.need_module(J2)
     ctx.need_module("optimism.material.Hardening")
-    d1_traceless(ctx)
-    d1_degenerate_threshold(ctx)
-    d1_layout(ctx)
-    d2_bracket(ctx)
-    d3_wiring(ctx)
-    d3_dispatch(ctx)
+    ctx.guard(d1_traceless, ctx)
+    ctx.guard(d1_degenerate_threshold, ctx)
+    ctx.guard(d1_layout, ctx)
+    ctx.guard(d2_bracket, ctx)
+    ctx.guard(d3_wiring, ctx)
+    ctx.guard(d3_dispatch, ctx)
     from . import units
-    units.run(ctx, "D3/T8-dimensional-homogeneity", {J2}, min_scenarios=8)
-    frames.run_frames_state_only(ctx, "D1/T9-frames", [f"{J2}:compute_state_new_finite_deformations"])
+    ctx.guard(units.run, ctx, "D3/T8-dimensional-homogeneity", {J2}, min_scenarios=8)
+    ctx.guard(frames.run_frames_state_only, ctx, "D1/T9-frames", [f"{J2}:compute_state_new_finite_deformations"])
     from . import tensorid
-    tensorid.run_identities(ctx, "D1/T7-tensor-helper-identities", ["inv", "deviator", "norm_of_deviator_squared"])
+    ctx.guard(tensorid.run_identities, ctx, "D1/T7-tensor-helper-identities", ["inv", "deviator", "norm_of_deviator_squared"])
     ctx.trust("det exp(A) = exp(tr A); an isotropic function of a symmetric tensor commutes with it")
     ctx.assume("shear modulus > 0; the root returned by find_root lies in the bracket it is given (C17)")
 
@@ -283,10 +283,10 @@ def d2_bracket(ctx):
         c = n.ast.value
         shown = src(c)
         if isinstance(c.ops[0], ast.Gt) and isinstance(c.left, ast.BinOp) and isinstance(c.left.op, ast.Sub):
-            from .common import expand
-            l = expand(cfg, n, c.left.left)
-            r = expand(cfg, n, c.left.right)
-            ok = "tensordot" in src(l) and "compute_flow_direction" in src(l) and "FLOW_STRESS" in src(r) or "compute_flow_stress" in src(r)
+            from .common import normal_form
+            l = normal_form(ci, n, c.left.left)
+            r = normal_form(ci, n, c.left.right)
+            ok = "tensordot" in src(l) and "compute_flow_direction" in src(l) and ("FLOW_STRESS" in src(r) or "compute_flow_stress" in src(r) or "jax.grad(hardening)" in src(r))
     ctx.decide(rule, ok, ci, tests[0].ast if tests else None, construct="yield-test-form", detail=shown,
                bad_detail=f"yield test `{shown}` is not (trial Mises stress - flow stress) > tolerance")
 
@@ -409,9 +409,12 @@ def d3_wiring(ctx):
     us = ctx.need(f"{J2}:update_state")
     lam_ok = False
     shown = "?"
+    from .common import defs_to_lambdas
     for c in calls_in(us):
-        if (dotted(c.func) or "").endswith("find_root") and c.args and isinstance(c.args[0], ast.Lambda):
-            lam = c.args[0]
+        if (dotted(c.func) or "").endswith("find_root") and c.args:
+            lam = defs_to_lambdas(c.args[0], us)
+            if not isinstance(lam, ast.Lambda):
+                continue
             shown = src(lam)
             v = lam.args.args[0].arg
             body = lam.body
@@ -432,18 +435,13 @@ def d3_wiring(ctx):
                bad_detail=f"root-finding function `{shown}` does not vary exactly the eqps slot of the residual with (trial strain, old eqps, dt, props, hardening) in the other slots")
     # the energy closure and the incremental potential share flow direction and hardening slots
     ed = ctx.need(f"{J2}:_energy_density")
-    from .common import Unifier
-    ue = Unifier(ed)
+    from .common import return_normal_form, sem_same
     e_ = ed.params()     # elStrain, state, dt, props, hardening_model
-    a1 = ue.assigns(f"compute_state_increment({e_[0]}, {e_[1]}, {e_[2]}, {e_[3]}, {e_[4]})", target="stateInc")
-    a2 = ue.assigns(f"{e_[1]}[EQPS] + stateInc[EQPS]", target="eqpsNew")
-    a3 = ue.assigns(f"{e_[0]} - stateInc[PLASTIC_DISTORTION].reshape((3, 3))", target="elasticStrainNew")
-    want_w = f"elastic_free_energy(elasticStrainNew, {e_[3]}) + {e_[4]}[ENERGY_DENSITY](eqpsNew, {e_[1]}[EQPS], {e_[2]})"
-    rr_ = ed.returns()
-    okw = False
-    if len(rr_) == 1:
-        okw = ue.match(rr_[0], want_w) or (isinstance(rr_[0], ast.Name) and len(ue.assigns(want_w, target="W")) == 1 and rr_[0].id == ue.actual("W"))
-    ok = len(a1) == 1 and len(a2) == 1 and len(a3) == 1 and okw
+    inc_ = f"compute_state_increment({e_[0]}, {e_[1]}, {e_[2]}, {e_[3]}, {e_[4]})"
+    want_w = (f"elastic_free_energy({e_[0]} - {inc_}[PLASTIC_DISTORTION].reshape((3, 3)), {e_[3]}) + "
+              f"{e_[4]}[ENERGY_DENSITY]({e_[1]}[EQPS] + {inc_}[EQPS], {e_[1]}[EQPS], {e_[2]})")
+    nf_ = return_normal_form(ed)
+    ok = nf_ is not None and sem_same(nf_, want_w, ed)
     ctx.decide(rule, ok, ed, None, construct="energy-evaluated-at-updated-state", detail="W = elastic_free_energy(trial - d_plastic) + hardening(eqps_new, eqps_old, dt)",
                bad_detail="_energy_density does not evaluate the elastic energy at the updated elastic strain plus the hardening potential at (eqps_new, eqps_old, dt)")
 
